@@ -135,7 +135,7 @@ def rule_c(ctx):
     cons = [c for c in constructions(F, 'UnprotectHeaderResult', 'UnprotectHeaderResult', crate='quinn_proto')]
     ctx.floor('c', 'unprotect_results', len(cons), 2)
     # length test and token comparison exist
-    lt = guard_edges(ctx, uh, lambda o, a, b: o == 'Le' and D.has_const(a, named='RESET_TOKEN_SIZE') and D.has_call(b, 'BytesMut::len') | ('len' in D.render(b)))
+    lt = guard_edges(ctx, uh, lambda o, a, b: o == 'Le' and D.has_const(a, named='RESET_TOKEN_SIZE') and D.has_call(b, 'BytesMut::len') | ('len' in D.render(b)), offsets=[('Add', '5')])
     ctx.check(bool(lt), 'c', 'reset_needs_min_length', uh, uh.where(), 'len >= RESET_TOKEN_SIZE + 5', 'the stateless-reset test lost its minimum-length condition')
     for br, truth, tgt in lt:
         rel = relation_on(br.desc, truth)
@@ -275,7 +275,8 @@ def rule_f(ctx):
     b = ctx.pfn('packet_crypto::decrypt_packet_body')
     oks = [c.bb for c in constructions(F, 'DecryptPacketResult', 'DecryptPacketResult', crate='quinn_proto')]
     guard_error(ctx, 'f', 'key_update_needs_higher_packet_number', b, lambda o, a, c: o == 'Le' and D.has_field(c, 'rx_packet') and (D.has_call(a, 'PacketNumber::expand') or 'number' in D.render(a)),
-                code='KEY_UPDATE_ERROR', protect=oks, what='number <= rx_packet')
+                code='KEY_UPDATE_ERROR', protect=oks, what='number <= rx_packet',
+                offsets=[('Add', '1')])   # `number` is expand(rx_packet + 1, ..): the +1 is inside the packet-number expansion
     es = bool_edges(ctx, b, lambda d: d[0] == 'call' and d[1] == 'Option::is_some_and' and D.has_param(d, name='prev_crypto'))
     ok = False
     for br, truth, tgt in es:
